@@ -456,7 +456,7 @@ pub fn history(index: u64, mut rng: Rng, tier: Tier, focus: &str) -> Outcome {
 pub fn run(cfg: &Cfg) -> i32 {
     let mut agg = Agg::new(cfg);
     let tier = cfg.tier;
-    let n = tier.pick(160, 4000);
+    let n = tier.pick(160, 2000);
     agg.run_parallel("market", n, Duration::from_secs(tier.pick(240, 1800)), |i, rng| history(i, rng, tier, "C06"));
     agg.finish(
         "exploration",
